@@ -14,11 +14,14 @@ MANIFEST = dict(
     technique='Lean 4 proof (SSE grammar round trip by induction over events/lines/characters; decision-table case analysis; fold lemmas) + differential correspondence run with a scripted HTTP transport + independent property oracle',
     design='5/C11',
 )
-GEN: list = []
+GEN = ["HttpParams"]
 THEOREMS = [
     "c11_parse_render", "c11_exactly_one_terminal", "c11_failure_only_synthesised", "c11_success_passthrough",
     "c11_json_body_messages", "c11_sse_body_messages", "c11_no_id_for_notification", "c11_failures_independent",
-    "c11_every_request_processed", "c11_session_header_latest",
+    "c11_every_request_processed", "c11_session_header_latest", "c11_close",
+    "c11_post_protocol_headers", "c11_post_session_header", "c11_post_authorization", "c11_params_auth_headers",
+    "c11_post_custom_headers", "c11_params_translated", "c11_params_accept_iff", "c11_params_url_normalised",
+    "c11_stream_chunk_independent", "c11_stream_plain_encodings",
 ]
 RULE = (
     "behaviours: every cell of {200,202,204,301,404,500} x {application/json, text/event-stream, text/plain, absent} x "
@@ -84,12 +87,43 @@ def _sse_feature(body):
     return "sse/other"
 
 
+def oracle_close(case, obs):
+    """the connection is closed with requests outstanding: nothing is invented, no request gets two terminal
+    messages, and every request gets its one terminal message or the read stream is closed (the reader sees
+    end-of-stream instead of waiting for ever)"""
+    reqs = [r for r in case["reqs"] if r.get("garbage") is None]
+    T = obs["transcript"]
+    srv = set()
+    for r in reqs:
+        e = G.expect(r["b"])
+        for m in list(e["srv"]) + list(e.get("may", [])):
+            srv.add(canon(G.classify(m)))
+    ids = [canon(r["id"]) for r in reqs if r["id"] is not None]
+    for m in T:
+        if m["id"] is None and m["kind"] not in ("request", "notification"):
+            continue
+        if canon(m) in srv or (m["kind"] in TERMINAL and canon(m["id"]) in ids):
+            continue
+        return ("invented-message", f"delivered message {canon(m)[:200]} is neither a server message nor a terminal for a request", {"absent": m})
+    for j, r in enumerate(reqs):
+        if r["id"] is None:
+            continue
+        n = sum(1 for m in T if m["kind"] in TERMINAL and m["id"] == r["id"])
+        if n > 1:
+            return ("duplicate-terminal/at-close", f"request {j}: {n} terminal messages", {"request": j, "terminals": "<=1"})
+        if n == 0 and obs.get("eos") is not True:
+            return ("no-terminal-and-stream-open-at-close",
+                    f"request {j} was outstanding when the connection was closed: no terminal message and the read stream does not end",
+                    {"request": j, "eos": True})
+    return None
+
+
 def oracle(case, obs):
     """The property, read off the implementation's observation alone."""
     if obs.get("crash"):
         return ("client-crashed", f"http_client raised {obs['crash']}", {"fence": True})
     if case.get("leave_at") is not None:
-        return None  # leaving the context with a POST in flight: only "does not raise / hang" is checked
+        return oracle_close(case, obs)
     if obs.get("round2") is not None:
         r2 = oracle(case, dict(obs["round2"], round2=None))
         if r2 is not None:
@@ -291,6 +325,243 @@ class Hardening(_Base):
         return "hard/" + case.get("hk", "?")
 
 
+HTTPX_OWN = {"host", "content-length", "accept-encoding", "connection"}
+HEADER_DICTS = [
+    [], [["X-Trace", "1"]], [["Accept", "*/*"], ["Content-Type", "text/plain"]], [["accept", "*/*"], ["content-type", "text/plain"]],
+    [["Authorization", "Basic abc"]], [["authorization", "Basic abc"]], [["AUTHORIZATION", "Basic zzz"], ["X-A", ""]],
+    [["User-Agent", "ua/1"]], [["user-agent", ""]], [["Mcp-Session-Id", "cfg-sess"]], [["mcp-session-id", "cfg-lower"]],
+    [["X-Empty", ""], ["Bearer ", "odd"], ["Accept-Language", "de"]], [["MCP-Protocol-Version", "2025-06-18"], ["Last-Event-ID", "7"]],
+]
+BEARERS = [None, "", "tok", "Bearer tok", "bearer tok", "Bearer ", " Bearer x"]
+
+
+class Headers(Suite):
+    """header construction (parameters.setup_auth_headers + _send_message_internal) against
+    HttpHeaders.setupAuth / postHeaders.  Supplementary obligation: a divergence here is recorded as a
+    note (INFO) and is not by itself a broken correspondence of the property; the session-header part
+    of the property is judged by the oracle of the main suites."""
+    name = "headers"
+
+    def cases(self, ctx, budget):
+        self._ctx = ctx
+        self._info = 0
+        rng = ctx.sub_rng("c11-headers", budget)
+        out = []
+        for hd in HEADER_DICTS:
+            for bearer in BEARERS:
+                env = rng.choice([None, "", "envtok", "Bearer envtok"])
+                out.append({"headers": hd, "bearer": bearer, "env": env, "session0": rng.choice([None, "", "s0"]),
+                            "issued": [rng.choice([None, "A", "B"]) for _ in range(3)]})
+        for _ in range(60 if budget == "quick" else 3000):
+            hd = [list(x) for x in rng.choice(HEADER_DICTS)] + [list(x) for x in rng.choice(HEADER_DICTS)]
+            seen, uniq = set(), []
+            for k, v in hd:   # a dict: unique keys (exact spelling)
+                if k not in seen:
+                    seen.add(k)
+                    uniq.append([k, v])
+            out.append({"headers": uniq, "bearer": rng.choice(BEARERS), "env": rng.choice([None, "", "e", "Bearer e"]),
+                        "session0": rng.choice([None, "", "s0"]), "issued": [rng.choice([None, "A", "B", "C"]) for _ in range(rng.randint(1, 4))]})
+        return out
+
+    @staticmethod
+    def _as_case(c):
+        reqs = []
+        for k, sess in enumerate(c["issued"]):
+            rid = {"i": k + 1}
+            reqs.append(G.mkreq(rid, G.response_b(200, "json", G.body_for("json", G.content("response", rid, f"hd{k}")), sess)))
+        cfg = {"headers": {k: v for k, v in c["headers"]} if c["headers"] is not None else None}
+        if c["bearer"] is not None:
+            cfg["bearer"] = c["bearer"]
+        if c["env"] is not None:
+            cfg["env_bearer"] = c["env"]
+        case = G.mkcase(reqs, c["session0"])
+        case["cfg"] = cfg
+        return case
+
+    def impl_batch(self, cases):
+        out = []
+        for c in cases:
+            o = H.run_case(self._as_case(c))
+            out.append({"cfg": o.get("cfg_headers"), "wire": o.get("wire"), "crash": o.get("crash")})
+        return out
+
+    def model_line(self, c):
+        state, sessions = c["session0"], []
+        for sess in c["issued"] + [None]:      # + the fence
+            sessions.append(state)
+            if sess is not None:
+                state = sess
+        return {"m": "http", "op": "headers", "headers": c["headers"], "ua": "chuk-mcp/1.0.0", "bearer": c["bearer"],
+                "env": c["env"], "sessions": sessions}
+
+    def compare(self, c, o, m):
+        diff = None
+        if o.get("crash") or "driver_error" in m:
+            diff = "crash / driver error"
+        elif o["cfg"] != m["cfg"]:
+            diff = f"configured headers {o['cfg']} vs model {m['cfg']}"
+        elif len(o["wire"]) != len(m["posts"]):
+            diff = "number of POSTs"
+        else:
+            for k, (wire, post) in enumerate(zip(o["wire"], m["posts"])):
+                names = {a.lower() for a, _ in post}
+                for n in names:
+                    want = [v for a, v in post if a.lower() == n]
+                    got = [v for a, v in wire if a.lower() == n]
+                    if want != got:
+                        diff = f"POST {k} header {n}: sent {got}, model {want}"
+                extra = {a.lower() for a, _ in wire} - names - HTTPX_OWN
+                if extra:
+                    diff = f"POST {k} carries headers the model does not build: {sorted(extra)}"
+        if diff is not None:
+            self._info += 1
+            if self._info <= 3:
+                self._ctx.notes.append(f"INFO (supplementary, not a property violation) header construction differs from HttpHeaders: {diff}; case {canon(c)[:300]}")
+            if self._info == 1:
+                print(f"INFO property=C11 supplementary=header-construction differs from the model (no property violation by itself): {diff}"[:300])
+        return None
+
+    def kind(self, c, o):
+        return "headers/" + ("cfg-dict" if c["headers"] else "no-cfg") + ("/bearer" if c["bearer"] else "") + ("/env" if c["env"] else "")
+
+
+class Params(Suite):
+    """the field validators of StreamableHTTPParameters against the REGENERATED Gen/HttpParams predicates
+    (translation validation).  Supplementary: divergences are notes."""
+    name = "params"
+    URLS = ["", "http://", "https://x", "http://x/", "https://x///", "ftp://x", "HTTP://x", " http://x", "httpx://y", "http:/x", "https:/",
+            "//x", "http://x/mcp/ ", "https://h\u00e9/mcp/", "/", "h", "https://", "http://a//b//"]
+    NUMS = [-1024, -1, 0, 1, 512, 1024, 61440, 10 ** 12]     # in 1/1024 units for the float fields
+
+    def cases(self, ctx, budget):
+        self._ctx = ctx
+        self._info = 0
+        out = []
+        for u in self.URLS:
+            out.append({"url": u, "timeout": 1024, "max_retries": 3, "retry_delay": 1024, "mcr": 10})
+        for f in ("timeout", "max_retries", "retry_delay", "mcr"):
+            for v in self.NUMS:
+                c = {"url": "http://x/mcp", "timeout": 1024, "max_retries": 3, "retry_delay": 1024, "mcr": 10}
+                c[f] = v if f in ("timeout", "retry_delay") else (v // 1024 if abs(v) >= 1024 else v)
+                out.append(c)
+        rng = ctx.sub_rng("c11-params", budget)
+        for _ in range(40 if budget == "quick" else 2000):
+            out.append({"url": rng.choice(self.URLS), "timeout": rng.choice(self.NUMS), "max_retries": rng.choice([-2, -1, 0, 1, 7]),
+                        "retry_delay": rng.choice(self.NUMS), "mcr": rng.choice([-1, 0, 1, 2, 100])})
+        return out
+
+    def impl_batch(self, cases):
+        from chuk_mcp.transports.http import StreamableHTTPParameters
+        out = []
+        for c in cases:
+            try:
+                p = StreamableHTTPParameters(url=c["url"], timeout=c["timeout"] / 1024, max_retries=c["max_retries"],
+                                             retry_delay=c["retry_delay"] / 1024, max_concurrent_requests=c["mcr"])
+                out.append({"ok": True, "bad": [], "url_stored": p.url})
+            except ValueError as ex:
+                bad = sorted({str(e["loc"][0]) for e in ex.errors()}) if hasattr(ex, "errors") else ["?"]
+                out.append({"ok": False, "bad": bad})
+        return out
+
+    def model_line(self, c):
+        return dict(c, m="http", op="params")
+
+    def compare(self, c, o, m):
+        fields = ["url", "timeout", "max_retries", "retry_delay", "max_concurrent_requests"]
+        want_bad = sorted(f for f in fields if not m.get(f, True))
+        diff = None
+        if want_bad != o["bad"]:
+            diff = f"rejected fields {o['bad']} vs regenerated validators {want_bad}"
+        elif o["ok"] and o["url_stored"] != m["url_stored"]:
+            diff = f"stored url {o['url_stored']!r} vs {m['url_stored']!r}"
+        if diff is not None:
+            self._info += 1
+            if self._info <= 3:
+                self._ctx.notes.append(f"INFO (supplementary) parameter validation differs from Gen/HttpParams: {diff}; case {canon(c)[:200]}")
+            if self._info == 1:
+                print(f"INFO property=C11 supplementary=parameter-validation differs from the regenerated validators: {diff}"[:300])
+        return None
+
+    def kind(self, c, o):
+        return "params/" + ("accepted" if o["ok"] else "rejected:" + ",".join(o["bad"]))
+
+
+class StreamBranch(Suite):
+    """the streaming branch of _process_sse_response (dead code behind `hasattr(response, "text")`, still
+    with the pre-repair grammar) driven directly with a response stub, against SseStream.parseStream:
+    every chunking of plain and of conformant-but-not-plain bodies.  Supplementary: divergences are notes."""
+    name = "stream-branch"
+
+    def cases(self, ctx, budget):
+        self._ctx = ctx
+        self._info = 0
+        rng = ctx.sub_rng("c11-stream", budget)
+        texts = []
+        k = 0
+        for eol in ("\n", "\r\n"):
+            for nm in (2, 3):
+                k += 1
+                msgs = [G.notif(f"st{k}-{j}", G.EXTRAS[(k + j) % len(G.EXTRAS)]) for j in range(nm - 1)] + [G.result({"i": 7}, f"st{k}")]
+                texts.append("".join(f"event: message{eol}data: {G.dumps(m)}{eol}{eol}" for m in msgs))
+                texts.append("".join(f"event: {['message', 'response', 'ping'][j % 3]}{eol}data: {G.dumps(m)}{eol}{eol}" for j, m in enumerate(msgs)))
+        # conformant encodings the branch does not understand, unterminated tails, comments, blank lines
+        for c in G.sse_encodings(stride=37)[:12]:
+            texts.append(G.sse_text(c["reqs"][0]["b"]["body"]))
+        texts += ["", "\n", "\n\n", "event: message", "event: message\ndata: {}", "data: {}\n\n", ": c\nevent: message\ndata: {}\n\n",
+                  "event: message\r\ndata: {\"jsonrpc\":\"2.0\",\r\ndata: \"id\":7,\"result\":{}}\r\n\r\n", "event:  message \ndata:  {}\n\n"]
+        out = []
+        for t in texts:
+            out.append({"chunks": [t]})
+            out.append({"chunks": list(t)})                       # one character at a time
+            for _ in range(3 if budget == "quick" else 30):
+                cuts = sorted(rng.randrange(len(t) + 1) for _ in range(rng.randint(1, 6))) if t else []
+                pieces, last = [], 0
+                for c in cuts + [len(t)]:
+                    pieces.append(t[last:c])                      # may be empty: `if not chunk: continue`
+                    last = c
+                out.append({"chunks": pieces})
+                if len(pieces) > 1:
+                    # the stream breaks off with an exception after a prefix of the chunks
+                    out.append({"chunks": pieces[:rng.randrange(1, len(pieces))], "fail": True})
+        return out
+
+    def impl_batch(self, cases):
+        return [H.run_stream(c["chunks"], fail=bool(c.get("fail"))) for c in cases]
+
+    def model_line(self, c):
+        return {"m": "http", "op": "stream", "chunks": c["chunks"], "aborted": bool(c.get("fail"))}
+
+    def compare(self, c, o, m):
+        if "skipped" in o:
+            if not self._info:
+                self._ctx.notes.append(f"INFO stream-branch cases skipped: {o['skipped']}")
+            self._info += 1
+            return None
+        want = []
+        for x in m.get("outs", []):
+            p_ = x["pass"]
+            want.append({"kind": p_["kind"], "id": p_["id"], "payload": p_["payload"]})
+        got = [x for x in o["transcript"]]
+        if c.get("fail"):
+            # the handler of the branch routes one error carrying the request's id after what was dispatched
+            if not (got and got[-1]["kind"] in TERMINAL and got[-1]["id"] == {"i": 7}):
+                want = None
+            else:
+                got = got[:-1]
+        if want is None or canon(H._norm(got)) != canon(H._norm(want)):
+            self._info += 1
+            if self._info <= 3:
+                self._ctx.notes.append(f"INFO (supplementary) streaming branch differs from SseStream.parseStream: chunks {canon(c)[:200]}")
+            if self._info == 1:
+                print(f"INFO property=C11 supplementary=stream-branch differs from the model: chunks {canon(c)[:200]}")
+        return None
+
+    def kind(self, c, o):
+        if "skipped" in o:
+            return "stream/skipped"
+        return f"stream/{'aborted' if c.get('fail') else 'complete'}/chunks{min(len(c['chunks']), 9)}/delivered{min(len(o['transcript']), 3)}"
+
+
 class Render(Suite):
     """the Python renderer used by the harness against the Lean `renderText`; `parseText` on it
     against the generator's own event list (model-only: no implementation run)"""
@@ -356,4 +627,4 @@ class RealSocket(_Base):
 
 
 def suites():
-    return [Singles(), SseEncodings(), Sequences(), Seeded(), Hardening(), Render(), RealSocket()]
+    return [Singles(), SseEncodings(), Sequences(), Seeded(), Hardening(), Headers(), Params(), StreamBranch(), Render(), RealSocket()]
